@@ -217,6 +217,7 @@ class C09(Prop):
         nextc = 1
         open_c = []
         nconn = 0
+        sent = {}
         for _ in range(rng.range(5, 22)):
             acts = []
             k = rng.weighted([("conn", 4 if nconn < nusers + 1 else 0), ("send", 9 if open_c else 0), ("close", 2 if open_c else 0),
@@ -228,19 +229,25 @@ class C09(Prop):
                 nconn += 1
             elif k == "send":
                 c = rng.choice(open_c)
-                acts.append("send:c%d:%s" % (c, self.gen_text(rng, verbs)))
+                t = self.gen_text(rng, verbs)
+                sent[c] = sent.get(c, 0) + t.count("/")
+                acts.append("send:c%d:%s" % (c, t))
             elif k == "close":
                 c = rng.choice(open_c)
                 open_c.remove(c)
                 acts.append("close:c%d" % c)
             elif k == "cin":
-                acts.append("cin:" + self.gen_text(rng, verbs, partial_ok=False))
+                t = self.gen_text(rng, verbs, partial_ok=False)
+                sent[0] = sent.get(0, 0) + t.count("/")
+                acts.append("cin:" + t)
             elif k == "idle":
                 acts.append("idle")
             if rng.chance(35, 100) or not acts:
                 acts.append(rng.weighted([("tick", 12), ("tick:1", 3), ("tick:5", 2), ("tick:1000", 2)]))
             lines.append("step " + " ".join(acts))
-        return E.Case(cid, HEAD + lines + TAIL + ["run"], {"origin": "generated"})
+        # settle: one buffered line is served per user and cycle, so drain the longest backlog before the closing ticks
+        drain = ["step idle"] * max(0, max(list(sent.values()) + [0]) - 3)
+        return E.Case(cid, HEAD + lines + drain + TAIL + ["run"], {"origin": "generated"})
 
     def gen_text(self, rng, verbs, partial_ok=True):
         n = rng.weighted([(1, 6), (2, 3), (3, 1)])
